@@ -236,6 +236,12 @@ def run(repo, rep, tier):
     r2 = rep.rule('C17.R2', 'no escaping exception before the response')
     property_call_rule(repo, rep)
     early_hooks_rule(repo, rep)
+    # what one request (indication) leaves behind: the callback thread that
+    # delivers all later indications must survive any callback outcome
+    from .c16 import delivery_thread_survives
+    delivery_thread_survives(repo, rep, rep.rule(
+        'C17.R11', 'the delivery thread survives every indication (nothing '
+        'escapes from the delivery to the callbacks)'))
     # messages built on the request path (parser errors end up in the 400
     # response): a format template that interpolates request text raises
     # KeyError / IndexError inside the handler
